@@ -37,7 +37,7 @@ class S4UCheck(dst.Check):
         if fatal or res['rc'] != 0:
             tail = res.get('stderr_tail', '')[-600:].replace('\n', ' | ')
             v.append(('crash', 'harness rc=%s %s ; stderr tail: %s' % (res['rc'], fatal[0].raw if fatal else '', tail)))
-        elif not recs or recs[-1].kind != 'end':
+        elif not any(r.t == 'S' and r.kind == 'end' for r in recs[-40:]):
             v.append(('crash', 'log truncated (no end record), rc=%s' % res['rc']))
         return v
 
